@@ -32,7 +32,7 @@ def gen(rng, i, tier):
     mixed = (i % 5 == 4)
     # every 8th case: parallel states whose initial list names a strict subset of their children (a transition may
     # then target a child that is not active while several siblings are)
-    c = hsm.gen_case(rng, p_parallel=0.4, single_scope=not mixed, max_events=2, p_subset=(0.7 if i % 8 == 5 else 0.0))
+    c = hsm.gen_case(rng, p_parallel=0.4, single_scope=not mixed, max_events=2, p_subset=(0.7 if i % 8 == 5 else 0.0), p_enum=0.2)
     n = [0]
 
     def fresh():
@@ -181,6 +181,8 @@ def nontrivial(case, obs):
 
 
 def stats(case, obs, dist):
+    if case.get('enum'):
+        dist['cases_with_enum_named_states'] = dist.get('cases_with_enum_named_states', 0) + 1
     if not isinstance(obs, list) or obs[0] != 1:
         return
     for items, res, cfg in obs[2]:
